@@ -716,7 +716,7 @@ def literal_part(ctx: vlib.Ctx, mod, mem: Members):
 THEOREMS = [
     "C11_union_decode_partial", "C11_union_deviation_char", "C11_union_shadow_result", "C11_union_none_refuted",
     "C11_union_shadow_refuted", "C11_no_cross_coercion", "C11_scalars_first_no_shadow", "C11_union_result_from_member",
-    "C11_union_raises_iff", "C11_none_member_never_raises", "C11_deterministic", "C11_union_dedup_invisible", "C11_opt",
+    "C11_union_raises_iff", "C11_none_member_never_raises", "C11_deterministic", "C11_union_dedup_invisible", "C11_nested_union_partial", "C11_opt",
     "C11_union_encode_partial", "C11_union_encode_refuted", "C11_literal_partial", "C11_literal_non_numeric",
     "C11_literal_returns_listed", "C11_literal_accepts_listed", "C11_literal_refuted",
 ]
@@ -743,6 +743,14 @@ def run(ctx: vlib.Ctx):
         "interpretation (i) of DESIGN 3.1: a scalar member 'accepts' by exact class first; coercions are tried after all non-scalar members",
         "inputs/values compared by (exact class name, repr)",
     ]
+    if not ctx.quick():
+        # second opinion on the compiled proofs (independent checker)
+        rc, log, secs = vlib.run(["timeout", "900", "coqchk", "-silent", "-o", "-Q", "theories", "Verif", "-Q", "props", "VerifProps",
+                                  "VerifProps.C11_union"], cwd=vlib.COQ, timeout=930)
+        ok = rc == 0 and "Axioms: <none>" in re.sub(r"\s+", " ", log)
+        ctx.obligation("coqchk VerifProps.C11_union (no axioms)", ok, log[-600:])
+        if not ok:
+            ctx.not_shown("coqchk VerifProps.C11_union", log[-1500:])
     mod = make_module()
     mem = Members(mod)
     decode_part(ctx, mod, mem)
